@@ -999,7 +999,12 @@ func (ex *Exec) convert(x Value, from, to types.Type) Value {
 		if isString(to) && fok {
 			// string(rune)
 			if !xt.IsConst() {
-				panic(ex.unsupported("string(symbolic rune)"))
+				// strings are concrete in the engine: fork on the value (a byte has 256)
+				v := ex.concretize(xt, "string(rune)")
+				if fs {
+					v = uint64(ts.Const(xt.w, v).Int())
+				}
+				return StrV(string(rune(v)))
 			}
 			return StrV(string(rune(xt.Int())))
 		}
